@@ -84,6 +84,15 @@ pub fn judge_line(rep: &mut Report, p: &mut Parser, prior: &[(Vec<u8>, bool)], l
             }
         }
     }
+    rep.sample(5, || {
+        let mut o = J::obj();
+        o.set("line", J::bytes(&line[..line.len().min(140)]));
+        o.set("shape", J::s(shape));
+        o.set("parser_state", J::s(state));
+        o.set("reference", J::s(verdict));
+        o.set("observed", J::s(&out.canon()[..out.canon().len().min(80)]));
+        o
+    });
     rep.class(format!("{}|{}|{}|{}", shape, state, poscls, verdict));
     rep.count(verdict);
 }
